@@ -152,8 +152,9 @@ def title(rng):
 INPUTS = [b"\x1b[1;2R", b"\x1b[5;10R", b"\x1b[M !!", b"\x1b[M#+5", b"a", b"\r\n", b"\x1b[A", b"\x1b[15~", b"\x1bOP", b"\x9b3;3R", b"\x1b[", b"\x1b[?1;2c", b"\x1b[24;80R"]
 
 
-def history(rng, nops, blink=True, graphic=True, sized=True, ops_weights=None, behbits=None, wild=False, inputs=False):
-    """returns the script line (without oracle config); one manipulator in eight is a named object streamed as an lvalue"""
+def history(rng, nops, blink=True, graphic=True, sized=True, ops_weights=None, behbits=None, wild=False, inputs=False, localised=False):
+    """returns the script line (without oracle config); one manipulator in eight is a named object streamed as an lvalue;
+    localised: the line is executed under a digit-grouping global C++ locale (prefix `~`)"""
     line = _history(rng, nops, blink, graphic, sized, ops_weights, behbits, wild, inputs)
     parts = line.split(" ; ")
     for k in range(1, len(parts)):
@@ -164,7 +165,7 @@ def history(rng, nops, blink=True, graphic=True, sized=True, ops_weights=None, b
                 parts[k] = "lv " + parts[k]
             elif x < 0.19:
                 parts[k] = "ux " + parts[k]       # from a destructor, while an unrelated exception is unwinding
-    return " ; ".join(parts)
+    return ("~" if localised else "") + " ; ".join(parts)
 
 
 def _history(rng, nops, blink=True, graphic=True, sized=True, ops_weights=None, behbits=None, wild=False, inputs=False):
